@@ -323,3 +323,8 @@ PROPERTY = Property(
          "for order operators and are unequal for ==; distinct by SHA-1",
     assumptions=["finite mu and sigma only"],
 )
+
+from vf import opt as _opt  # noqa: E402
+
+PROPERTY.clauses.append(_opt.optimised("C18", next(c for c in PROPERTY.clauses if c.name == "pairs"), quick=160, thorough=1600))
+PROPERTY.clauses.append(_opt.optimised("C18", next(c for c in PROPERTY.clauses if c.name == "foreign-operands"), quick=160, thorough=1600))
